@@ -22,7 +22,7 @@ def profiler_sweep(tier, seed=0):
     t0 = time.time()
     cases, fails = 0, []
     for n in (1, 2, 3):
-        for spec in graph_specs(n, ("T", "D")):
+        for spec in graph_specs(n, ("T", "D", "A")):   # aliases are executed (pretask / posttask) like any other key
             for req in requests_for(n)[:-2]:
                 tnames = [chr(ord("a") + i) for i, (k, _) in enumerate(spec) if k == "T"]
                 for fl in [()] + [(t,) for t in tnames]:
@@ -80,7 +80,7 @@ def profiler_sweep(tier, seed=0):
         if len(fails) >= 4:
             break
     return {"function": "dask/diagnostics/profile.py:Profiler (real code, sync and threaded schedulers)", "bounded": True,
-            "bound": {"graphs": "all task/data graphs <= 3 nodes, all requests, one failing task or none", "modes": "single, nested profilers, registered + context"},
+            "bound": {"graphs": "all task/data/alias graphs <= 3 nodes, all requests, one failing task or none", "modes": "single, nested profilers, registered + context"},
             "cases": cases, "distinct_nontrivial": cases, "failures_found": len(fails), "wall_s": round(time.time() - t0, 2),
             "samples": [{"native_case": {"graph": [["T", []], ["T", [0]]], "request": "b", "mode": "nested"}}], "failures": fails[:4]}
 
@@ -353,13 +353,93 @@ def lock_generated_tokens():
     return None
 
 
+def lock_many_in_between(n):
+    """a lock stays THE lock of its token while it is alive, however many other locks were created in the meantime"""
+    from dask.utils import SerializableLock
+
+    for tok in (None, ("resource", n)):
+        a = SerializableLock(tok)
+        blob = pickle.dumps(a)
+        others = [SerializableLock() for _ in range(n)] + [SerializableLock(("other", i)) for i in range(n)]
+        for how, c in (("copy unpickled afterwards", pickle.loads(blob)), ("same token, created afterwards", SerializableLock(a.token)), ("copy of the later copy", pickle.loads(pickle.dumps(pickle.loads(blob))))):
+            if c.lock is not a.lock:
+                return f"token {tok!r}: after {2 * n} other locks were created, the {how} no longer shares the original's lock"
+            with a:
+                if c.acquire(False):
+                    c.release()
+                    return f"token {tok!r}: after {2 * n} other locks were created, the {how} can be acquired while the original is held"
+        del others
+    return None
+
+
+def lock_after_fork():
+    """in a forked child, copies made after the fork are still the same lock as the original created before it"""
+    import os
+
+    from dask.utils import SerializableLock
+
+    if not hasattr(os, "fork"):
+        return None
+    locks = [SerializableLock(), SerializableLock(("hdf", "/tmp/x.h5"))]
+    blobs = [pickle.dumps(x) for x in locks]
+    r, w = os.pipe()
+    pid = os.fork()
+    if pid == 0:
+        code = 0
+        try:
+            os.close(r)
+            msg = ""
+            for a, blob in zip(locks, blobs):
+                for how, c in (("unpickled after the fork", pickle.loads(blob)), ("copy made after the fork", pickle.loads(pickle.dumps(a))), ("same token, created after the fork", SerializableLock(a.token))):
+                    with a:
+                        if c.acquire(False):
+                            c.release()
+                            msg = f"token {a.token!r}: in a forked child the {how} can be acquired while the original is held"
+                    if msg:
+                        break
+                if msg:
+                    break
+            os.write(w, msg.encode()[:500])
+        except BaseException as e:  # noqa
+            os.write(w, f"child raised {type(e).__name__}: {e}".encode()[:500])
+            code = 1
+        finally:
+            os._exit(code)
+    os.close(w)
+    data = b""
+    while True:
+        chunk = os.read(r, 1024)
+        if not chunk:
+            break
+        data += chunk
+    os.close(r)
+    os.waitpid(pid, 0)
+    return data.decode() or None
+
+
 def lock_sweep(tier, seed=0):
     t0 = time.time()
     cases, fails = 0, []
+    for n_ in (10, 300, 1200 if tier != "quick" else 600):
+        cases += 1
+        try:
+            msg = lock_many_in_between(n_)
+        except Exception as e:  # noqa
+            msg = f"{type(e).__name__}: {e}"
+        if msg:
+            fails.append(rtc.Failure("SerializableLock", {"scenario": "other locks created in between", "n": n_}, "ensures", "C53-holding-one-blocks-the-others", msg))
+            break
+    cases += 1
+    try:
+        msg = lock_after_fork()
+    except Exception as e:  # noqa
+        msg = f"{type(e).__name__}: {e}"
+    if msg:
+        fails.append(rtc.Failure("SerializableLock", {"scenario": "copies made in a forked child"}, "ensures", "C53-holding-one-blocks-the-others", msg))
     cases += 1
     msg = lock_generated_tokens()
     if msg:
-        fails.append(rtc.Failure("SerializableLock", {"scenario": "generated tokens with the global random module re-seeded"}, "ensures", "C53-copies-share-the-lock-separate-locks-do-not", msg))
+        fails.append(rtc.Failure("SerializableLock", {"scenario": "generated tokens with the global random module re-seeded; 20-2400 other locks created between creation and unpickling; copies made in a forked child"}, "ensures", "C53-copies-share-the-lock-separate-locks-do-not", msg))
     for tok in TOKENS:
         cases += 1
         try:
@@ -382,6 +462,6 @@ def lock_sweep(tier, seed=0):
                 break
     gc.collect()
     return {"function": "dask/utils.py:SerializableLock (real code)", "bounded": True,
-            "bound": {"history length": length, "contention": "per token: a thread holds the original, 7 kinds of copies (3 of them made in other threads) x 4 ways of acquiring; generated tokens with the global random module re-seeded", "ops": "new(token in None/'tok'/1/'1'/('a',1)/\"('a', 1)\"/b'x'/\"b'x'\"/''/0), pickle round trip of instance i, delete instance i + gc"},
+            "bound": {"history length": length, "contention": "per token: a thread holds the original, 7 kinds of copies (3 of them made in other threads) x 4 ways of acquiring; generated tokens with the global random module re-seeded; 20-2400 other locks created between creation and unpickling; copies made in a forked child", "ops": "new(token in None/'tok'/1/'1'/('a',1)/\"('a', 1)\"/b'x'/\"b'x'\"/''/0), pickle round trip of instance i, delete instance i + gc"},
             "cases": cases, "distinct_nontrivial": cases, "failures_found": len(fails), "wall_s": round(time.time() - t0, 2),
             "samples": [{"native_case": {"history": [["new", "tok"], ["pickle", 0], ["del", 0], ["pickle", 1]]}}], "failures": fails[:4]}
